@@ -430,6 +430,9 @@ impl<'a> Lexer<'a> {
                                     if self.peek() == Some(&'-') {
                                         acc.push('-');
                                         self.next();
+                                    } else if self.peek() == Some(&'+') {
+                                        // 1e+21, as JSON and most languages write it
+                                        self.next();
                                     }
                                     while let Some(cc) = self.peek().filter(|d| d.is_digit(10)) {
                                         acc.push(*cc);
@@ -492,6 +495,9 @@ impl<'a> Lexer<'a> {
                                     self.next();
                                     if self.peek() == Some(&'-') {
                                         acc.push('-');
+                                        self.next();
+                                    } else if self.peek() == Some(&'+') {
+                                        // 1e+21, as JSON and most languages write it
                                         self.next();
                                     }
                                     while let Some(cc) = self.peek().filter(|d| d.is_digit(10)) {
